@@ -85,7 +85,7 @@ def case(draw):
         if inc != 'absent':
             meta['include'] = inc
         if comp_mode == 'all' or (comp_mode == 'partial' and draw(st.booleans())):
-            c = draw(st.integers(1, 40))
+            c = draw(st.one_of(st.integers(0, 40), st.sampled_from([0, 0, 1])))
             meta['component'] = c
         out.append(dict(r, meta=meta))
     bad = draw(st.lists(unsupported(), max_size=2))
